@@ -384,10 +384,21 @@ def dynamicallyRequired (args : List (Name × Value)) (i : VInfo) (v : IRVertex)
       | some (.var _ _), _ => .panic "operand was not a tag"
       | none, _ => .panic "filter did not have an operand"
 
+/-- `range_candidate` of `dynamic.rs` (context-field / imported-tag paths): an ordering comparison
+against a null tag value is never satisfied, so no value is a candidate; otherwise the range.
+(Repair of finding F-2: before it the null value went into `Range::with_end/with_start` and hit the
+assertion of `Range::new`.)  On the fold-count path (`nullCheck = false`) the value is a count,
+never null, and the code builds the range directly. -/
+def rangeCandidateOfTag (nullCheck : Bool) (value : Value) (mk : R Range) (initial : Candidate) :
+    R Candidate :=
+  if nullCheck && Cand.isNull value then .ok (initial.intersect .impossible)
+  else mk.map fun r => initial.intersect (.range r)
+
 /-- `compute_candidate_from_operation` / `resolve_fold_specific_field` for one context: the
 candidate for a tag value.  `nullIncluded` = `true` on the context-field and imported-tag paths,
 `false` on the fold-count path.  Both `GreaterThanOrEqual` arms of `dynamic.rs` build
-`Range::with_end` (finding F-1); a null tag value reaches the assertion of `Range::new` (F-2). -/
+`Range::with_end` (finding F-1).  A null tag value under an ordering operator or `one_of` yields the
+empty candidate on the context-field / imported-tag paths (findings F-2 / F-2b, repaired). -/
 def candidateOfTag (nullIncluded : Bool) (o : Filter.BinOp) (t : Tagged) (initial : Candidate) :
     R Candidate :=
   match t with
@@ -397,16 +408,20 @@ def candidateOfTag (nullIncluded : Bool) (o : Filter.BinOp) (t : Tagged) (initia
     | .equals => .ok (initial.intersect (.single value))
     | .notEquals => .ok (initial.exclude value)
     | .lessThan =>
-      (rangeWithEnd (.excluded value) nullIncluded).map fun r => initial.intersect (.range r)
+      rangeCandidateOfTag nullIncluded value (rangeWithEnd (.excluded value) nullIncluded) initial
     | .lessThanOrEqual =>
-      (rangeWithEnd (.included value) nullIncluded).map fun r => initial.intersect (.range r)
+      rangeCandidateOfTag nullIncluded value (rangeWithEnd (.included value) nullIncluded) initial
     | .greaterThan =>
-      (rangeWithStart (.excluded value) nullIncluded).map fun r => initial.intersect (.range r)
+      rangeCandidateOfTag nullIncluded value (rangeWithStart (.excluded value) nullIncluded) initial
     | .greaterThanOrEqual =>
-      (rangeWithEnd (.included value) nullIncluded).map fun r => initial.intersect (.range r)
+      rangeCandidateOfTag nullIncluded value (rangeWithEnd (.included value) nullIncluded) initial
     | .oneOf =>
       match value with
       | .list vs => .ok (initial.intersect (.multiple vs))
+      | .null =>
+        -- `one_of` against a null list is never satisfied (fold-count path: not reachable, panics)
+        if nullIncluded then .ok (initial.intersect (.multiple []))
+        else .panic "produced an invalid value when resolving @tag"
       | _ => .panic "produced an invalid value when resolving @tag"
     | _ => .panic "unsupported 'operation': unreachable!"
 
